@@ -260,6 +260,11 @@ func (w *World) Run(x *simkit.Ctx) {
 		return r.Range(8, 90)
 	})
 	sibl := x.CfgInt("sibling_order", func(r *simkit.Rng) int { return int(r.U64() >> 40) })
+	// the order in which a producer fetch walks the accounts (Go map order in production; every order
+	// is legal): seeded, so that a size-limited fetch replays exactly
+	porder := x.CfgInt("pool_order", func(r *simkit.Rng) int { return 1 + int(r.U64()>>40) })
+	mempool.VerifSetPoolOrder(uint64(porder))
+	defer mempool.VerifSetPoolOrder(0)
 	if nA < 1 {
 		nA = 1
 	}
